@@ -230,6 +230,17 @@ pub fn drive(args: &[String]) {
             };
             pool.push((top & !((1u64 << b) - 1)) | idx);
         }
+        // one scenario in three opens with the motif "content arrives by merge only" (see cms.rs)
+        if sci % 3 == 1 {
+            steps.push(json!({"obj": "b", "op": {"name":"add","hv": pool[2].to_string(), "via_add": false}}));
+            steps.push(json!({"obj": "b", "op": {"name":"add","hv": pool[9].to_string(), "via_add": true}}));
+            steps.push(json!({"obj": "a", "other": "b", "op": {"name":"merge"}}));
+            steps.push(json!({"obj": "a", "op": {"name":"clear"}}));
+            steps.push(json!({"obj": "a", "op": {"name":"add","hv": pool[10].to_string(), "via_add": true}}));
+            steps.push(json!({"obj": "a", "other": "b", "op": {"name":"merge"}}));
+            steps.push(json!({"obj": "a", "op": {"name":"clear"}}));
+            steps.push(json!({"obj": "a", "other": "b", "op": {"name":"merge"}}));
+        }
         for _ in 0..(15 + rng.below(40)) {
             let x = rng.below(100);
             let obj = ["a", "b"][rng.below(2) as usize];
